@@ -17,7 +17,7 @@ pub fn case(ctx: &mut Ctx, cfg: &Cfg, data: &[u8], kind: &str, sink: Sink, tiny:
     for (cl, m) in &run.problems { ctx.violation(id, cl, format!("{} [{}] calls={}", m, cfg.describe(), calls_summary(&run.calls)), replay.clone()); }
     ctx.sample(format!("{} kind={} len={} sink={} calls=[{}] out_len={}", cfg.describe(), kind, data.len(), if sink == Sink::Callback { "cb" } else { "buf" }, calls_summary(&run.calls), run.out.len()));
     if run.done {
-        ctx.line(&format!("ENC id={} checks={} modes={} {} in={} comp={}", id, checks, cfg.modes(), cfg.describe(), hex(data), hex(&run.out)));
+        ctx.line(&format!("ENC id={} rp=SCHED;sink={};tiny={};seed={} checks={} modes={} {} in={} comp={}", id, (sink == Sink::Callback) as u8, tiny as u8, seed, checks, cfg.modes(), cfg.describe(), hex(data), hex(&run.out)));
     }
 }
 
